@@ -1043,3 +1043,53 @@ mutant("c08-persist-any-reason", "C08", "C08-D4", "server_socket.go",
        "		if s.server.connectionStateRecovery.Enabled && recoverableDisconnectReasons.Contains(reason) {", "		if s.server.connectionStateRecovery.Enabled {")
 mutant("c08-filter-by-except-only", "C08", "C08-D3", "adapter/adapter_session_aware.go",
        "		if shouldIncludePacket(sessionWithTS.SessionToPersist.Rooms, packet.Opts) {\n			missedPackets = append(missedPackets, packet)\n		}", "		missedPackets = append(missedPackets, packet)")
+
+# ---------------------------------------------------------------- C09
+mutant("c09-id-before-namespace", "C09", "C09-D2", "parser/json/encode.go",
+       """	if header.Namespace != "" && header.Namespace != "/" {
+		buf.WriteString(header.Namespace + ",")
+	}
+
+	if header.ID != nil {
+		buf.WriteString(strconv.FormatUint(*header.ID, 10))
+	}""",
+       """	if header.ID != nil {
+		buf.WriteString(strconv.FormatUint(*header.ID, 10))
+	}
+
+	if header.Namespace != "" && header.Namespace != "/" {
+		buf.WriteString(header.Namespace + ",")
+	}""")
+mutant("c09-swap-packet-types", "C09", "C09-D3", "parser/packet.go",
+       "	PacketTypeEvent\n	PacketTypeAck\n", "	PacketTypeAck\n	PacketTypeEvent\n")
+mutant("c09-rename-num-tag", "C09", "C09-D4", "parser/json/binary.go",
+       '	Num         int  `json:"num"`', '	Num         int  `json:"n"`')
+mutant("c09-new-setter-in-struct-walk", "C09", "C09-D1", "parser/json/binary.go",
+       """		if !fv.IsValid() || !fv.CanInterface() {
+			continue
+		}
+
+		b, err := p.deconstructValue(fv, numBuffers)""",
+       """		if !fv.IsValid() || !fv.CanInterface() {
+			continue
+		}
+		if fv.Kind() == reflect.String && fv.CanSet() {
+			fv.SetString(fv.String())
+		}
+
+		b, err := p.deconstructValue(fv, numBuffers)""")
+mutant("c09-root-namespace-written", "C09", "C09-D2", "parser/json/encode.go",
+       '	if header.Namespace != "" && header.Namespace != "/" {', '	if header.Namespace != "" {')
+mutant("c09-fromchar-accepts-7", "C09", "C09-D3", "parser/packet.go",
+       "	if b < 48 || b > byte(48+packetTypeMax) {", "	if b < 48 || b > byte(48+packetTypeMax)+1 {")
+mutant("c09-placeholder-index-base", "C09", "C09-D4", "parser/json/binary.go",
+       "			num := p.Num + 1\n", "			num := p.Num + 2 - 1 + 0*1\n			num = p.Num\n")
+mutant("c09-attachments-for-ack-only", "C09", "C09-D2", "parser/json/encode.go",
+       "	if header.Type == parser.PacketTypeBinaryEvent || header.Type == parser.PacketTypeBinaryAck {\n		buf.WriteString(strconv.Itoa(header.Attachments)",
+       "	if header.Type == parser.PacketTypeBinaryEvent {\n		buf.WriteString(strconv.Itoa(header.Attachments)")
+mutant("c09-header-namespace-rewritten", "C09", "C09-D1", "parser/json/encode.go",
+       "		if hasBinary(rv) {\n", "		if header.Namespace == \"\" {\n			header.Namespace = \"/\"\n		}\n		if hasBinary(rv) {\n")
+mutant("c09-double-count-attachment", "C09", "C09-D4", "parser/json/binary.go",
+       "			*numBuffers++\n", "			*numBuffers++\n			if len(buf) == 0 {\n				*numBuffers++\n			}\n")
+mutant("c09-reader-namespace-text-only", "C09", "C09-D2", "parser/json/decode.go",
+       "	if len(data) >= 1 && data[0] == '/' {", "	if !header.IsBinary() && len(data) >= 1 && data[0] == '/' {")
